@@ -315,9 +315,21 @@ class Sample:
 
         eminus.config.backend = "numpy"
         eminus.config.verbose = "critical"
+        errs_all = {}
+        # three samplings with the SAME number of points one after the other in this process (anything remembered between objects must be keyed by the triple)
+        for triple in ([4, 5, 6], [6, 4, 5], [5, 6, 4]):
+            e = self._native_errors(Atoms, triple)
+            for k, v in e.items():
+                errs_all[k] = max(errs_all.get(k, 0.0), v)
+        errs = errs_all
+        key = {"index_N": "G.a", "r": "r", "G": "G.a", "G2": "G2", "plane_wave": "plane_wave", "Sf": "Sf", "masks": "masks"}[wit["clause"]]
+        return bool(errs[key] > 1e-9), dict(check="triclinic cell, s = (4,5,6), (6,4,5), (5,6,4) in one process, 2 k-points (native)", errors=errs)
+
+    @staticmethod
+    def _native_errors(Atoms, triple):
         a = np.array([[4.0, 0.3, 0.1], [0.2, 4.5, 0.4], [0.5, 0.1, 5.0]])
         at = Atoms("He", [[0.3, 0.2, 0.1]], ecut=3, a=a)
-        at.s = [4, 5, 6]
+        at.s = list(triple)
         at.kpts.kmesh = [2, 1, 1]
         at.kpts.gamma_centered = False
         at.build()
@@ -340,8 +352,29 @@ class Sample:
                 errs["masks"] = 1.0
             elif np.abs(np.asarray(at.Gk2c[ik]) - ((G + k[ik]) ** 2).sum(1)[want]).max() > 1e-9:
                 errs["masks"] = 1.0
-        key = {"index_N": "G.a", "r": "r", "G": "G.a", "G2": "G2", "plane_wave": "plane_wave", "Sf": "Sf", "masks": "masks"}[wit["clause"]]
-        return bool(errs[key] > 1e-9), dict(check="triclinic cell, s=(4,5,6), 2 k-points (native)", errors=errs)
+        return errs
+
+
+class SampleNative:
+    """BOUNDED: the state contracts of Atoms._sample_unit_cell evaluated natively for three samplings with the same number of points, one after the other in one process."""
+
+    def __call__(self, ob, tier, seed):
+        from pycv.framework import BOUNDED_OK
+
+        bad, info = Sample("r").replay(dict(clause="r"))
+        worst = max(info["errors"].values())
+        if worst > 1e-9:
+            k = max(info["errors"], key=info["errors"].get)
+            return Result(REFUTED, backend="native", witness=dict(clause=k), replayed=True, replay_info=info, detail=f"sampling of the unit cell: clause {k} fails natively with error {worst:.2e} ({info['check']})")
+        return Result(BOUNDED_OK, backend="native", detail=f"bounded: {info['check']}: r, G.a, plane-wave phases, |G|^2, structure factors, masks to {worst:.1e}")
+
+    def replay(self, wit):
+        bad, info = Sample("r").replay(dict(clause="r"))
+        return bool(max(info["errors"].values()) > 1e-9), info
+
+
+register(Obligation(name="C03.sample.native_equal_point_counts_one_process", prop=PROP, engine="B", bounded=True, run=SampleNative(), functions=["eminus.atoms:Atoms._sample_unit_cell", "eminus.atoms:Atoms._get_index_matrices"],
+                    doc="BOUNDED: sampling points, reciprocal vectors, plane-wave phases, structure factors and masks for three samplings with equal point counts built one after the other"))
 
 
 class TShift:
